@@ -282,6 +282,7 @@ func (d *Driver) runCheck(writeEvidence bool) int {
 		addScript(r, tmpDir, fmt.Sprintf("ok%04d.json", i))
 	}
 	native := map[string]*NativeResult{}
+	retried := 0
 	tR0 := time.Now()
 	for pkg, scripts := range byPkg {
 		res, err := d.replayNative(pkg, scripts, harnessOf)
@@ -291,6 +292,24 @@ func (d *Driver) runCheck(writeEvidence bool) int {
 		}
 		for k, v := range res {
 			native[k] = v
+		}
+		// A native timeout that the engine did not predict (the path is expected to end) may be a
+		// loaded machine rather than a hang: such scripts get one more run, alone, before the
+		// outcome is believed.
+		expectsHang := map[string]bool{}
+		for r, p := range scriptOf {
+			if strings.HasPrefix(r.Outcome, "blocked:") || strings.HasPrefix(r.Outcome, "unwind:") {
+				expectsHang[p] = true
+			}
+		}
+		for _, p := range scripts {
+			if nr := native[p]; (nr == nil || nr.Outcome == "timeout") && !expectsHang[p] {
+				again, err := d.replayNative(pkg, []string{p}, harnessOf)
+				if err == nil && again[p] != nil {
+					native[p] = again[p]
+					retried++
+				}
+			}
 		}
 	}
 	tReplay := time.Since(tR0)
@@ -442,6 +461,7 @@ func (d *Driver) runCheck(writeEvidence bool) int {
 			"solver_time_s":                 float64(d.stats.SolverNs) / 1e9,
 			"solver":                        solverVersion(d.solverBin),
 			"cross_solver_check":            d.xres,
+			"native_replays_retried":        retried,
 			"outcomes_by_harness":           outcomesByHarness,
 			"known_findings_reproduced":     keysOf(knownHits),
 			"problems":                      problems,
